@@ -109,14 +109,14 @@ def layouts(nareas, lengths=LENGTHS, gaps=GAPS):
                 yield ls, gs, pl
 
 
-def place(ls, gs, placement):
+def place(ls, gs, placement, zone=ZONE):
     """start addresses of the areas of a layout"""
     rel = [0]
     for i in range(1, len(ls)):
         rel.append(rel[-1] + ls[i - 1] + gs[i - 1])
-    border = (ZONE + 1) << 16
+    border = (zone + 1) << 16
     if placement == "low":
-        base = (ZONE << 16) + 0x0100
+        base = (zone << 16) + 0x0100
     elif placement == "cross":
         base = border - rel[-1] - (ls[-1] // 2)
     elif placement == "gap":
@@ -126,7 +126,7 @@ def place(ls, gs, placement):
     return [base + r for r in rel]
 
 
-def build(ls, gs, placement, rng_bytes):
+def build(ls, gs, placement, rng_bytes, zone=ZONE):
     """image = [(addr, data)]; rng_bytes(n) supplies content"""
-    addrs = place(ls, gs, placement)
+    addrs = place(ls, gs, placement, zone)
     return [(a, rng_bytes(n)) for a, n in zip(addrs, ls)]
